@@ -285,3 +285,104 @@ func H_C04_LimitSid() {
 	v.Assert(post.sid == pre.sid && post.tid == pre.tid && post.maxSid == pre.maxSid && post.maxTid == pre.maxTid && post.wantedTid == pre.wantedTid, "nothing else moves (the switch itself waits for the next keyframe)")
 	v.Reach("end")
 }
+
+// H_C04_UpdateRate: the loss-based bitrate ceiling always stays within its
+// fixed bounds, for every previous value (any stored bitrate and timestamp,
+// also stale or garbage), every loss value, clock reading and rate estimate.
+func H_C04_UpdateRate() {
+	down, _ := zzNewDown("video/vp8")
+	down.maxBitrate.bitrate = v.U64("prev")
+	down.maxBitrate.jiffies = v.U64("prevjiffies")
+	now := v.U64("now")
+	down.updateRate(v.U8("loss"), now)
+	got := down.maxBitrate.Get(now)
+	v.Assert(got >= minLossRate && got <= maxLossRate, "the loss-based bitrate ceiling stays within [9600, 2^30]")
+	v.Assert(down.maxBitrate.jiffies == now, "and its timestamp is refreshed")
+	v.Reach("end")
+}
+
+// zzVP9 builds a single-packet VP9 frame in non-flexible mode: I=1 (15-bit
+// picture id), L=1 (layer octet + TL0PICIDX), B/E/P/U/D as given, one payload
+// octet whose top bits make it a VP9 frame header (key or inter frame).
+func zzVP9(seqno uint16, marker, b, e, p bool, tid, sid uint8, u, d bool, keyframe bool, z bool) []byte {
+	pkt := []byte{0x80, 98, byte(seqno >> 8), byte(seqno), 0, 0, 0, 1, 0, 0, 0, 2}
+	if marker {
+		pkt[1] |= 0x80
+	}
+	d0 := byte(0x80 | 0x20) // I, L
+	if p {
+		d0 |= 0x40
+	}
+	if b {
+		d0 |= 0x08
+	}
+	if e {
+		d0 |= 0x04
+	}
+	if z {
+		d0 |= 0x01
+	}
+	pkt = append(pkt, d0, 0x80|0x12, 0x34) // picture id (15 bits)
+	l := tid<<5 | sid<<1
+	if u {
+		l |= 0x10
+	}
+	if d {
+		l |= 0x01
+	}
+	pkt = append(pkt, l, 7) // layer octet, TL0PICIDX
+	h := byte(0x80)         // frame marker 0b10, profile 0, show_existing_frame 0
+	if !keyframe {
+		h |= 0x04 // frame_type = 1 (non-key)
+	}
+	return append(pkt, h)
+}
+
+// H_C04_WriteVP9: ONE VP9 packet through the real Write from an ARBITRARY
+// layer state: the spatial layer changes only at the first packet of a
+// keyframe (or follows a new top layer); layers above the selection are
+// withheld, as are non-reference packets of lower spatial layers.
+func H_C04_WriteVP9() {
+	down, up := zzNewDown("video/vp9")
+	_ = v.Choice("_", 1)
+	pre := zzArbitraryLayer("pre")
+	down.setLayerInfo(pre)
+	s := v.U16("seqno")
+	down.packetmap.Map(s-1, 0)
+	b, e := v.Bool("B"), v.Bool("E")
+	kf := v.Bool("keyframe")
+	tid, sid := uint8(v.Choice("tid", 4)), uint8(v.Choice("sid", 4)) // concrete: spreads the work over the workers
+	u := v.Bool("U")
+	z := v.Bool("Z")
+	pkt := zzVP9(s, v.Bool("marker"), b, e, v.Bool("P"), tid, sid, u, v.Bool("D"), kf, z)
+	down.Write(pkt)
+	post := down.getLayerInfo()
+	v.Assert(zzLInv(post), "selected layers never exceed the layers seen; invariant preserved")
+	isKF := b && kf
+	eagerS := pre.sid == pre.maxSid && !pre.limitSid && sid > pre.maxSid
+	if post.sid != pre.sid {
+		v.Assert(v.Or(isKF, eagerS), "the spatial layer changes only at the first packet of a keyframe (or follows a new top layer)")
+		v.Reach("sid-changed")
+	}
+	eagerT := pre.tid == pre.maxTid && tid > pre.maxTid
+	if post.tid < pre.tid {
+		v.Assert(b, "the temporal layer falls only at the start of a frame")
+	}
+	if post.tid > pre.tid {
+		v.Assert(v.Or(eagerT, v.And(b, v.Or(isKF, v.And(v.Or(isKF, u), tid <= post.wantedTid)))), "the temporal layer rises only at a keyframe or an up-switch point not above the wanted layer")
+	}
+	if b && post.sid != post.wantedSid && !isKF {
+		v.Assert(up.kfRequests > 0, "a pending spatial switch asks the publisher for a keyframe")
+	}
+	if tid > post.tid || sid > post.sid {
+		v.Assert(len(zzOut) == 0, "an in-order packet above the selected layers is withheld")
+		v.Reach("withheld")
+	} else if sid < post.sid && z {
+		v.Assert(len(zzOut) == 0, "a lower-layer packet that upper layers do not reference is withheld")
+		v.Reach("nonref")
+	} else {
+		v.Assert(len(zzOut) == 1, "a packet within the selection is forwarded")
+		v.Reach("forwarded")
+	}
+	v.Reach("end")
+}
